@@ -127,9 +127,8 @@ def stats_vec(r, entries):
 def corr_pure(chk, binary, r, thorough):
     # ---- NextestExitCode constants
     consts = vlib.run_impl(binary, "dispatcher", [dict(op="exitcodes")])[0]
-    model = vlib.coq_eval("c01k", dc.IMPORTS,
-                          ["Z.to_N EXIT_NO_TESTS_RUN", "Z.to_N EXIT_TEST_RUN_FAILED",
-                           "Z.to_N EXIT_SETUP_SCRIPT_FAILED", "Z.to_N EXIT_OK"], dc.PRELUDE)
+    model = dc.coq_eval("c01k", ["Z.to_N EXIT_NO_TESTS_RUN", "Z.to_N EXIT_TEST_RUN_FAILED",
+                           "Z.to_N EXIT_SETUP_SCRIPT_FAILED", "Z.to_N EXIT_OK"])
     impl_k = [consts["NO_TESTS_RUN"], consts["TEST_RUN_FAILED"], consts["SETUP_SCRIPT_FAILED"], 0]
     chk.count("exit_constant_cases", 4)
     if impl_k != model or impl_k != [4, 100, 105, 0]:
@@ -166,11 +165,10 @@ def corr_pure(chk, binary, r, thorough):
         combos = list(itertools.product(range(3), repeat=len(VERDICT_FIELDS)))
     else:
         combos = list(itertools.product(range(2), repeat=len(VERDICT_FIELDS)))
-        combos += [tuple(r.randint(0, 2) for _ in VERDICT_FIELDS) for _ in range(3000)]
+        combos += [tuple(r.choice([0, 0, 0, 1, 2]) for _ in VERDICT_FIELDS) for _ in range(3000)]
     vecs = [stats_vec(r, c) for c in combos]
     impl = vlib.run_impl(binary, "dispatcher", [dict(op="final", stats=v) for v in vecs], shards=16)
-    model = vlib.coq_eval("c01f", dc.IMPORTS, ["obs_final " + vlib.coq_list([str(x) for x in v]) for v in vecs],
-                          dc.PRELUDE)
+    model = dc.coq_eval("c01f", ["obs_final " + vlib.coq_list([str(x) for x in v]) for v in vecs])
     for v, i, m in zip(vecs, impl, model):
         chk.count("summarize_final_cases")
         chk.count(f"final={FINAL_KIND[i[0]]}")
@@ -218,7 +216,7 @@ def corr_pure(chk, binary, r, thorough):
         sv = vlib.coq_list([str(x) for x in c["stats"]])
         exprs.append(f"(let s := on_test_finished (stats_of_list {sv}) {st} in "
                      f"enc_stats s ++ [describe {st}; failed_count s])")
-    model = vlib.coq_eval("c01t", dc.IMPORTS, exprs, dc.PRELUDE)
+    model = dc.coq_eval("c01t", exprs)
     for c, i, m in zip(cases, impl, model):
         chk.count("on_test_finished_cases")
         got = i["stats"] + [i["describe"], i["failed_count"]]
@@ -239,9 +237,9 @@ def corr_pure(chk, binary, r, thorough):
             break
     cases = [dict(op="osf", stats=[r.randint(0, 3) for _ in range(17)], result=res) for res in results]
     impl = vlib.run_impl(binary, "dispatcher", cases)
-    model = vlib.coq_eval("c01s", dc.IMPORTS, [
+    model = dc.coq_eval("c01s", [
         f"(let s := on_script_finished (stats_of_list {vlib.coq_list([str(x) for x in c['stats']])}) "
-        f"{dc.coq_res(c['result'])} in enc_stats s ++ [failed_setup_script_count s])" for c in cases], dc.PRELUDE)
+        f"{dc.coq_res(c['result'])} in enc_stats s ++ [failed_setup_script_count s])" for c in cases])
     for c, i, m in zip(cases, impl, model):
         chk.count("on_script_finished_cases")
         if i["stats"] + [i["failed_scripts"]] != m:
@@ -289,7 +287,7 @@ def run(tier, seed):
     while len(cases) < n:
         cases.append(dc.gen_near(r))
     impl, mismatch = c10.run_step_correspondence(chk, binary, cases, r, None, tier, "c01s")
-    wfm = vlib.coq_eval("c01w", dc.IMPORTS, [dc.coq_wf_expr(c) for c in cases], dc.PRELUDE)
+    wfm = dc.coq_eval("c01w", [dc.coq_wf_expr(c) for c in cases])
     finals = vlib.run_impl(binary, "dispatcher",
                            [dict(op="final", stats=last_stats(c, i["steps"])) for c, i in zip(cases, impl)],
                            shards=16)
@@ -384,7 +382,7 @@ def replay(path, seed):
         f = vlib.run_impl(binary, "dispatcher", [dict(op="final", stats=last_stats(inp, steps))])[0]
         pw = dc.py_wf(inp, steps)
         why = oracle_c01(inp, steps, f) if pw is None else None
-        model = vlib.coq_eval("c01r", dc.IMPORTS, [dc.coq_seq_expr(inp)], dc.PRELUDE)[0]
+        model = dc.coq_eval("c01r", [dc.coq_seq_expr(inp)])[0]
         diff = dc.diff_seq(steps, model)
         print("well-formed:", pw or "yes", "| oracle:", why or "accepts", "| model vs implementation:",
               "agree" if diff is None else f"differ at step {diff[0]}")
